@@ -181,15 +181,16 @@ def py_files_model(case):
     folders = list(dict.fromkeys(f[0] for f in fs))
     st = {d: (True, case["passes"]) for d in folders}
     table = set(map(lambda c: (tuple(c[0]), c[1]), case["table"]))
-    log = []
+    log, any_changes = [], False
     for p in range(1, case["passes"] + 1):
         todo = sorted({f for f in fs if st[f[0]][0] and st[f[0]][1] > 0})
         if not todo:
             break
         res = {f: (f, p) in table for f in todo}
+        any_changes = any_changes or any(res.values())
         st = {d: (any(res.get(f, False) for f in fs if f[0] == d), st[d][1] - 1) for d in folders}
         log.append(todo)
-    return log, any(c for c, _ in st.values())
+    return log, any_changes
 
 
 def g_file(f):
@@ -286,7 +287,33 @@ EXPLICIT_RULE_OPS = [
 
 
 def explicit_modules():
-    return explicit_family() + [op[1] for op in EXPLICIT_RULE_OPS]
+    return explicit_family() + [op[1] for op in EXPLICIT_RULE_OPS] + folding_family()
+
+
+# constant folding of values that are not constants of the program (hunt C06-0..2; site core.literal_value, owner c15h):
+# order of a set of strings, str hashes, reprs with addresses.  Shapes x folding contexts.
+def folding_family():
+    unstable = {
+        "set-order": ['list({"a", "b", "c"}) == ["a", "b", "c"]', '"-".join({"a", "b", "c"}) == "a-b-c"',
+                      'str({"a", "b"}) == "{\'a\', \'b\'}"', 'tuple({"x", "y", "z"})[0] == "x"'],
+        "str-hash": ['"abc".__hash__() % 2 == 0', '"k".__hash__() > 0'],
+        "address-repr": ['str(zip((1,), (2,))) < "<zip object at 0x7f8"', '"".join(reversed(str(zip((1,), (2,))))) < ">08"',
+                         'repr(enumerate(())) < "<enumerate object at 0x7f8"'],
+    }
+    out = []
+    for kind, exprs in unstable.items():
+        for e in exprs:
+            out.append(f"if {e}:\n    print(1)\nelse:\n    print(2)\n")
+            out.append(f"x = {e}\nprint(x)\n")
+    return out
+
+
+def raising_file_tree():
+    """hunt C06-3: 12 files in one folder, one of them valid Python that is not utf-8 (format_file raises
+    UnicodeDecodeError): which OTHER files get formatted must not depend on the number of workers."""
+    files = {f"pkg/m{i:02d}.py": "import os\nprint(1)\n" for i in range(12)}
+    files["pkg/m04.py"] = b"# -*- coding: latin-1 -*-\nimport os\nprint('caf\xe9')\n"
+    return files
 
 
 def disturb_heap(rnd):
@@ -417,7 +444,7 @@ c05.JOBS["delay_cases"] = job_delay_cases
 def build_tree(root: Path, files: dict[str, str]):
     for rel, text in files.items():
         (root / rel).parent.mkdir(parents=True, exist_ok=True)
-        (root / rel).write_text(text)
+        (root / rel).write_bytes(text if isinstance(text, bytes) else text.encode())
 
 
 def tree_families(pool, mods):
@@ -478,7 +505,36 @@ def sig_intra_batch_import(files: dict[str, str], differing: list[str]) -> bool:
     return True
 
 
-SIGS = {"intra_batch_import": sig_intra_batch_import}
+def _fold_kind(source):
+    """which of the three unstable-folding shapes the text contains"""
+    kinds = set()
+    try:
+        tree = ast.parse(source)
+    except SyntaxError:
+        return kinds
+    lazy = {"zip", "enumerate", "reversed", "map", "filter", "iter"}
+    for n in ast.walk(tree):
+        if not isinstance(n, ast.Call):
+            continue
+        if isinstance(n.func, ast.Attribute) and n.func.attr == "__hash__" and isinstance(n.func.value, ast.Constant):
+            kinds.add("str-hash")
+        name = n.func.id if isinstance(n.func, ast.Name) else n.func.attr if isinstance(n.func, ast.Attribute) else ""
+        if name in ("len", "min", "max", "sum", "sorted", "any", "all", "bool", "set", "frozenset"):
+            continue
+        for a in n.args:
+            if isinstance(a, ast.Set) and any(isinstance(e, ast.Constant) and isinstance(e.value, (str, bytes)) for e in a.elts):
+                kinds.add("set-order")
+            if name in ("str", "repr", "ascii", "format", "join") and isinstance(a, ast.Call) \
+                    and isinstance(a.func, ast.Name) and a.func.id in lazy:
+                kinds.add("address-repr")
+    return kinds
+
+
+SIGS = {"intra_batch_import": sig_intra_batch_import,
+        # hash-seed dependent folding: only differences between hash seeds are explained by it
+        "folds_order_of_str_set": lambda src, kind="": "set-order" in _fold_kind(src) and kind != "address-dependent-result",
+        "folds_str_hash": lambda src, kind="": "str-hash" in _fold_kind(src) and kind != "address-dependent-result",
+        "folds_repr_with_address": lambda src, kind="": "address-repr" in _fold_kind(src)}
 
 
 # ------------------------------------------------------------------------------------------------
@@ -552,6 +608,14 @@ def _check(run, wd, mods, farm, t_start):
             job = {"repo": str(common.REPO), "mode": "files", "root": str(root), "files": order, "n_cores": n_cores,
                    "max_passes": passes, "sequential": sequential, "junk": 100 * ci}
             file_futs.append((ti, label, passes, ex.submit(spawn_child, wd, f"files{ti}_{ci}", job, ci % 4)))
+    rfiles = raising_file_tree()
+    raise_futs = []
+    for n_cores in (1, 2, 4):
+        root = wd / f"raise_{n_cores}"
+        build_tree(root, rfiles)
+        job = {"repo": str(common.REPO), "mode": "files", "root": str(root), "files": sorted(rfiles), "n_cores": n_cores,
+               "max_passes": 1, "sequential": False}
+        raise_futs.append((n_cores, ex.submit(spawn_child, wd, f"raise_{n_cores}", job, 0)))
     pkg_futs = []
     for fam, (files, safe) in PACKAGE_FAMILIES.items():
         for oi, order in enumerate(itertools.permutations(sorted(files))):
@@ -686,7 +750,7 @@ def _check(run, wd, mods, farm, t_start):
     # ---- 3b. in-process allocation perturbation (forked workers)
     t0 = time.time()
     reps = 2 if quick else 6
-    deep_reps = 10 if quick else 30
+    deep_reps = 6 if quick else 30
     pops = [c05.rec_op(r) for r in pool if _encodable(r)]
     if quick:
         pops = pops[::2]              # fixed stride (seed-independent); the children run all of them
@@ -722,7 +786,8 @@ def _check(run, wd, mods, farm, t_start):
                         suspicious.append(op)       # R06.2 applies and the order really moves: look closer
                 if len({json.dumps(x) for x in results}) > 1:
                     failures.append(("address-dependent-result",
-                                     {"op": c05.enc(op), "results": sorted({json.dumps(x) for x in results})[:4], "site": site,
+                                     {"op": c05.enc(op), "source": op[2] if op[0] == "rule" else op[1],
+                                      "results": sorted({json.dumps(x) for x in results})[:4], "site": site,
                                       "runs": len(results),
                                       "explanation": "the same call gives different results in one process when only the "
                                                      "addresses of the parsed nodes change (iteration over a set of nodes)"}))
@@ -730,6 +795,23 @@ def _check(run, wd, mods, farm, t_start):
     perturb_round(pops, reps, True)
     perturb_round(explicit + suspicious[:40], deep_reps, False)
     timing["perturbation_s"] = round(time.time() - t0, 1)
+
+    # ---- 3e. the same text twice in one interpreter with > maxsize other parses in between, vs a fresh interpreter
+    #          (output must not depend on how many files a pool worker happened to format before: class of seed C06-c)
+    t0 = time.time()
+    sv = c05.sentinel_eviction_histories([r for r in pool if _encodable(r)])
+    sfail, n_sentinel = c05.run_histories_vs_fresh(farm, sv, "through", "window")
+    for kind, ops, detail in sfail:
+        i = detail.get("call", len(ops) - 1)
+        op = ops[min(i, len(ops) - 1)]
+        failures.append(("result-depends-on-files-formatted-before" if kind != "job-error" else "sentinel-job-failed",
+                         {"site": op[1] if op[0] in ("rule", "rejected") else "format_code", "call_index": i,
+                          "op": c05.enc(op), "history_len": len(ops), **{k: v for k, v in detail.items() if k != "problems"},
+                          "cache_problems": detail.get("problems"),
+                          "explanation": "a call returns something else after the interpreter has parsed more than 100 other "
+                                         "sources than in a fresh interpreter: the result depends on how many files the "
+                                         "worker formatted before (worker count / file order)"}))
+    timing["sentinel_s"] = round(time.time() - t0, 1)
 
     # ---- 3a. collect the hash-seed children
     t0 = time.time()
@@ -784,9 +866,40 @@ def _check(run, wd, mods, farm, t_start):
                                   "return_values": [o0["ret"], o["ret"]],
                                   "outputs": {f: [o0["tree"][f], o["tree"].get(f)] for f in diff[:3]}}))
         hist[f"trees:passes={passes}:changed_files"] = sum(1 for f in trees[ti] if o0["tree"][f] != trees[ti][f])
+        # the change report: True iff files were rewritten (what formatting one after the other reports)
+        for l, o in ok_runs:
+            rewritten = sorted(f for f in trees[ti] if o["tree"].get(f) != trees[ti][f].encode().decode("latin-1"))
+            if isinstance(o["ret"], bool) and o["ret"] != bool(rewritten):
+                failures.append(("change-report-differs-from-sequential",
+                                 {"site": "main.format_files", "tree": trees[ti], "config": l, "max_passes": passes,
+                                  "returned": o["ret"], "files_rewritten": rewritten,
+                                  "explanation": "format_files returned %r although %d files were rewritten; formatting "
+                                                 "the files one after the other reports any(format_file(f))"
+                                                 % (o["ret"], len(rewritten))}))
+                break
+    # one file raises: the other files
+    rres = [(n, f.result()) for n, f in raise_futs]
+    for n, o in rres:
+        if "error" in o:
+            failures.append(("format_files-child-failed", {"tree": "raising-file", "config": f"{n} cores", "error": o["error"]}))
+    rok = [(n, o) for n, o in rres if "error" not in o]
+    for n, o in rok[1:]:
+        n_tree_cmp += 1
+        n0, o0 = rok[0]
+        diff = sorted(f for f in o0["tree"] if o0["tree"][f] != o["tree"].get(f))
+        if diff or o0["ret"] != o["ret"]:
+            failures.append(("worker-count-dependent-tree-after-exception",
+                             {"site": "main.format_files", "tree": {k: (v if isinstance(v, str) else v.decode("latin-1")) for k, v in rfiles.items()},
+                              "n_cores": [n0, n], "results": [o0["ret"], o["ret"]], "differing_files": diff,
+                              "left_unformatted": {str(n0): sorted(f for f in o0["tree"] if o0["tree"][f] == "import os\nprint(1)\n"),
+                                                   str(n): sorted(f for f in o["tree"] if o["tree"][f] == "import os\nprint(1)\n")},
+                              "explanation": "formatting one file raises; which OTHER files were formatted depends on the "
+                                             "number of workers"}))
+            break
     # ---- 3d. package batches in both sequential orders (T06.4)
     kf = [f for f in common.load_findings(PID) if f.kind == "finding"]
     reproduced = defaultdict(list)
+    reproduced_fold = defaultdict(list)
     by_fam = defaultdict(list)
     for fam, order, fut in pkg_futs:
         by_fam[fam].append((order, fut.result()))
@@ -821,6 +934,28 @@ def _check(run, wd, mods, farm, t_start):
             common.log(f"note: known finding {f.id} no longer reproduces")
     timing["trees_packages_wait_s"] = round(time.time() - t0, 1)
     ex.shutdown(wait=True)
+
+    # ---- known findings on constant folding (site core.literal_value): suppressed only by the structural predicate
+    fold_f = [f for f in kf if f.fields.get("sig") in SIGS and f.fields.get("site") == "core.literal_value"]
+    kept = []
+    for kind, payload in failures:
+        src = payload.get("source")
+        m = None
+        if kind in ("hashseed-dependent-result", "address-dependent-result") and isinstance(src, str):
+            m = next((f for f in fold_f if SIGS[f.fields["sig"]](src, kind)), None)
+        if m is None:
+            kept.append((kind, payload))
+        else:
+            reproduced_fold[m.id].append((kind, payload))
+    failures = kept
+    for f in fold_f:
+        hits = reproduced_fold.get(f.id)
+        if hits:
+            k0, p0 = hits[0]
+            run.known_finding(f.id, f"{f.text} [{len(hits)} differing results, e.g. {k0} at {p0.get('site')}: "
+                                    f"{p0['source'][:70]!r}]")
+        else:
+            common.log(f"note: known finding {f.id} no longer reproduces")
 
     # ---- verdicts
     seen, n_rep = set(), 0
@@ -874,7 +1009,7 @@ def _check(run, wd, mods, farm, t_start):
         sweep={"hashseeds": seeds, "hashseeds_rules_only": rule_seeds, "suspicious_ops_rerun": len(suspicious),
                "format_code_inputs": len(fmt_inputs), "rule_inputs": len(rules),
                "generated_modules": len(gen), "comparisons": n_code, "perturbation_calls": n_perturb,
-               "perturbation_reps": reps, "trees": len(trees), "tree_comparisons": n_tree_cmp, "delayed_driver_runs": n_delay,
+               "perturbation_reps": reps, "trees": len(trees), "tree_comparisons": n_tree_cmp, "delayed_driver_runs": n_delay, "sentinel_history_calls": n_sentinel,
                "package_families": sorted(PACKAGE_FAMILIES), "package_runs": len(pkg_futs)},
         corpus_size=len(pool), corpus_harvest=hstats, histogram=dict(hist), timing=timing,
         failure_sites=dict(site_hist), correspondence_disagreements=len(disagreements),
